@@ -11,7 +11,7 @@ import numpy as np
 from dask._task_spec import Alias, DataNode, convert_legacy_graph
 
 from . import fakes
-from .common import HarnessError, Violation, fp
+from .common import HarnessError, UnexecutableGraph, Violation, fp
 
 POLICIES = ("fifo", "lifo", "random", "order", "rorder", "starve")
 
@@ -78,26 +78,36 @@ class Sim:
 
     def run(self, dsk, keys):
         g = convert_legacy_graph(dict(dsk))
+        wanted = set(_flatten(keys))
+        for k in sorted(wanted, key=keyrepr):
+            if k not in g:
+                raise UnexecutableGraph(f"requested key {k!r} not in graph")
+        # like every real scheduler, run only what the requested keys need
+        reach = set()
+        stack = sorted(wanted, key=keyrepr)
+        while stack:
+            k = stack.pop()
+            if k in reach:
+                continue
+            reach.add(k)
+            for x in g[k].dependencies:
+                if x not in g:
+                    raise UnexecutableGraph(f"task {k!r} depends on {x!r} which no task produces")
+                if x not in reach:
+                    stack.append(x)
+        if len(reach) != len(g):
+            self.bump("probe.unreachable_tasks", len(g) - len(reach))
+            g = {k: g[k] for k in g if k in reach}
         self.graph_size = len(g)
         deps = {}
         for k in sorted(g, key=keyrepr):
-            d = sorted(g[k].dependencies, key=keyrepr)
-            for x in d:
-                if x not in g:
-                    raise Violation(
-                        self.prop, "unexecutable-graph", f"task {k!r} depends on {x!r} which no task produces"
-                    )
-            deps[k] = d
+            deps[k] = sorted(g[k].dependencies, key=keyrepr)
         dependents = {k: [] for k in deps}
         for k, d in deps.items():
             for x in d:
                 dependents[x].append(k)
         waiting = {k: len(set(d)) for k, d in deps.items()}
         remaining_users = {k: len(set(v)) for k, v in dependents.items()}
-        wanted = set(_flatten(keys))
-        for k in wanted:
-            if k not in g:
-                raise Violation(self.prop, "unexecutable-graph", f"requested key {k!r} not in graph")
         prio = None
         if self.policy in ("order", "rorder"):
             from dask.order import order
@@ -137,7 +147,7 @@ class Sim:
                         if remaining_users[x] == 0 and x not in wanted:
                             cache.pop(x, None)
             if done != total:
-                raise Violation(self.prop, "unexecutable-graph", f"cycle: {total - done} tasks never became ready")
+                raise UnexecutableGraph(f"cycle: {total - done} tasks never became ready")
         finally:
             fakes.set_phase(prev_phase)
         return _nest(keys, cache)
